@@ -1330,6 +1330,15 @@ class Interp:
             if isinstance(obj, PyModel) or _concrete(obj):
                 return hasattr(obj, args[1])
             raise Unmodelled('hasattr on a symbolic value')
+        if isinstance(fn, ast.Name) and fn.id == 'map' and fn.id not in self.env and len(args) > 2:
+            seqs = []
+            for sq in args[1:]:
+                if isinstance(sq, Rec) and '__native__' in sq.f:
+                    sq = sq.f['__native__']
+                if isinstance(sq, (Opaque, Ref, Rec)):
+                    raise Unmodelled('map() over a symbolic sequence')
+                seqs.append(list(sq))
+            return [self.invoke(args[0], list(items)) for items in zip(*seqs)]      # expanded eagerly
         if isinstance(fn, ast.Name) and fn.id in ('filter', 'map') and fn.id not in self.env and len(args) == 2:
             seq = args[1]
             if isinstance(seq, (Opaque, Ref, Rec)):
